@@ -19,8 +19,6 @@ was recorded, `ok` otherwise (`Compile.File`).
 Go's partial operations on this path, as explicit panic arms:
 * `proto.SetExtension(desc.Options, ext_j5pb.E_Field, *ext_j5pb.DateField | *DecimalField)`:
   wrong Go type for the extension (date / decimal rules);
-* `proto.SetExtension(nil *FieldOptions, …)` for a required map field (the map field descriptor
-  is built without `Options`);
 * `ensureImport("")` / `ensureImport(path without "/")` (explicit `panic` in builders.go);
 * `ww.field.name` with `ww.field == nil` for a oneof without a name.
 -/
@@ -33,12 +31,15 @@ structure Eff where
   imports : List Str := []
   errs : Nat := 0
   panic : Bool := false
+  /-- files whose extensions are set on an option message of the current file
+  (`proto.SetExtension`): the link step looks each of them up among the file's imports -/
+  uses : List Str := []
 
 instance : Inhabited Eff := ⟨{}⟩
 
 def Eff.add (a b : Eff) : Eff :=
   { msgs := a.msgs ++ b.msgs, enums := a.enums ++ b.enums, imports := a.imports ++ b.imports,
-    errs := a.errs + b.errs, panic := a.panic || b.panic }
+    errs := a.errs + b.errs, panic := a.panic || b.panic, uses := a.uses ++ b.uses }
 
 instance : Append Eff := ⟨Eff.add⟩
 
@@ -49,12 +50,14 @@ def Eff.imp (p : Str) : Eff :=
 def Eff.imps (ps : List Str) : Eff := ps.foldl (fun e p => e ++ Eff.imp p) {}
 
 def Eff.err : Eff := { errs := 1 }
+/-- an extension defined in file `p` is set -/
+def Eff.use (p : Str) : Eff := { uses := [p] }
 def Eff.panicked : Eff := { panic := true }
 
-/-- conversion context of one file -/
+/-- conversion context of one file: `rootContext.resolveTypeNoImport` (import map, implicit
+imports, `Package.ResolveType`) as a function of the reference -/
 structure Ctx where
-  im : ImportMap
-  res : Resolver
+  resolve : Str → Str → Option TypeRef
 
 /-- what `buildField` leaves in the descriptor, as far as later code looks at it -/
 structure FieldRes where
@@ -63,7 +66,6 @@ structure FieldRes where
   ext : Str := []
   hasValidate : Bool := false       -- (buf.validate.field) is set
   primaryKey : Bool := false        -- (j5.ext.v1.key).primary_key
-  optionsNil : Bool := false        -- `Options == nil` (map field)
   deriving Repr, DecidableEq, Inhabited
 
 /-- result of `buildField`: `res = none` ⇔ an error was returned -/
@@ -77,13 +79,24 @@ structure BF where
 instance : Inhabited BF := ⟨{}⟩
 
 /-- `setJ5Ext` on its success path: sets the typed member, imports the extension file -/
-def j5Ext : Eff := Eff.imp j5ExtImport
+def j5Ext : Eff := Eff.imp j5ExtImport ++ Eff.use j5ExtImport
 
 def when (b : Bool) (e : Eff) : Eff := if b then e else {}
 
+/-- list rules: import + `(j5.list.v1.field)` -/
+def listRulesEff (lr : Bool) : Eff :=
+  when lr (Eff.imp j5ListAnnotationsImport ++ Eff.use j5ListAnnotationsImport)
+
+/-- `(buf.validate.field)` set WITHOUT `ensureImport(bufValidateImport)` -/
+def validateNoImport (b : Bool) : Eff := when b (Eff.use bufValidateImport)
+
+/-- `(buf.validate.field)` set with its import -/
+def validateWithImport (b : Bool) : Eff :=
+  when b (Eff.imp bufValidateImport ++ Eff.use bufValidateImport)
+
 /-- `resolveType` for a non-inline reference followed by the kind check of the caller -/
 def refField (c : Ctx) (pkg schema : Str) (wantEnum : Bool) : Eff × Option TypeRef :=
-  match resolveTypeNoImport c.im c.res pkg schema with
+  match c.resolve pkg schema with
   | none => ({}, none)
   | some t =>
     -- ensureImport(typeRef.File) happens before the kind check
@@ -115,59 +128,71 @@ def enumRuleVals (rules : Rules) : List Str :=
 
 def relName (np : List Str) (name : Str) : Str := joinWith b!"." (np ++ [name])
 
-/-- `visitEnumNode` + `enumBuilder.addValue` -/
-def convEnum (e : EnumDecl) : EnumSkel :=
-  let pfx := if e.pfx = [] then toScreamingSnake e.name ++ b!"_" else e.pfx
-  let full (n : Str) : Str := if hasPrefix pfx n then n else pfx ++ n
-  let zero : Str × Nat := (pfx ++ b!"UNSPECIFIED", 0)
-  -- `Enum.Option.number` is 0 for every option of a parsed file
-  match e.opts with
+/-- enum value prefix: given, or `SCREAMING_SNAKE(name)_` -/
+def enumPrefix (e : EnumDecl) : Str :=
+  if e.pfx = [] then toScreamingSnake e.name ++ b!"_" else e.pfx
+
+/-- `enumBuilder.addValue`: the prefix is added unless already there -/
+def enumFull (pfx n : Str) : Str := if hasPrefix pfx n then n else pfx ++ n
+
+/-- values of `visitEnumNode`: implicit `<PREFIX>UNSPECIFIED = 0` (replaced by a leading option
+whose name ends in `UNSPECIFIED`; `Enum.Option.number` is 0 for every option of a parsed file),
+then `idx + 1` -/
+def enumValues (pfx : Str) (opts : List Str) : List (Str × Nat) :=
+  match opts with
   | first :: rest =>
     if hasSuffix b!"UNSPECIFIED" first then
-      { name := e.name, values := (full first, 0) :: rest.zipIdx.map fun (n, i) => (full n, i + 1) }
+      (enumFull pfx first, 0) :: rest.zipIdx.map fun (n, i) => (enumFull pfx n, i + 1)
     else
-      { name := e.name, values := zero :: e.opts.zipIdx.map fun (n, i) => (full n, i + 1) }
-  | [] => { name := e.name, values := [zero] }
+      (pfx ++ b!"UNSPECIFIED", 0) :: opts.zipIdx.map fun (n, i) => (enumFull pfx n, i + 1)
+  | [] => [(pfx ++ b!"UNSPECIFIED", 0)]
 
-/-- the `TypeRef` of an inline / declared enum as `enumTypeRef` builds it (raw prefix!) -/
-def enumTKind (e : EnumDecl) : TKind := .enum e.pfx (e.opts.map (e.pfx ++ ·))
+/-- `visitEnumNode` + `enumBuilder.addValue` -/
+def convEnum (e : EnumDecl) : EnumSkel :=
+  { name := e.name, values := enumValues (enumPrefix e) e.opts }
+
+/-- the `TypeRef` of an inline / declared enum as `enumTypeRef` builds it: defaulted prefix, the
+implicit zero and the value names of `visitEnumNode` -/
+def enumTKind (e : EnumDecl) : TKind :=
+  .enum (enumPrefix e) ((enumPrefix e ++ b!"UNSPECIFIED") :: (enumValues (enumPrefix e) e.opts).map (·.1))
 
 /-- scalar (non-reference) branches of `buildField` -/
 def scalarField : Field → Option BF
   | .string rules lr => some
-    { eff := j5Ext ++ when lr (Eff.imp j5ListAnnotationsImport),
+    { eff := j5Ext ++ validateNoImport (!rules.isEmpty) ++ listRulesEff lr,
       res := some { type := .string, ext := b!"string", hasValidate := !rules.isEmpty } }
   | .bool rules lr => some
-    { eff := j5Ext ++ when lr (Eff.imp j5ListAnnotationsImport),
+    { eff := j5Ext ++ validateNoImport (!rules.isEmpty) ++ listRulesEff lr,
       res := some { type := .bool, ext := b!"bool", hasValidate := !rules.isEmpty } }
   | .bytes rules => some
-    { eff := j5Ext, res := some { type := .bytes, ext := b!"bytes", hasValidate := !rules.isEmpty } }
+    { eff := j5Ext ++ validateNoImport (!rules.isEmpty),
+      res := some { type := .bytes, ext := b!"bytes", hasValidate := !rules.isEmpty } }
   | .date rules lr => some
     { eff := Eff.imp j5DateImport ++ when (!rules.isEmpty) Eff.panicked
-              ++ when lr (Eff.imp j5ListAnnotationsImport),
+              ++ listRulesEff lr,
       res := some { type := .message, typeName := b!".j5.types.date.v1.Date" } }
   | .decimal rules lr => some
     { eff := Eff.imp j5DecimalImport ++ when (!rules.isEmpty) Eff.panicked
-              ++ when lr (Eff.imp j5ListAnnotationsImport),
+              ++ listRulesEff lr,
       res := some { type := .message, typeName := b!".j5.types.decimal.v1.Decimal" } }
   | .timestamp rules => some
-    { eff := Eff.imp pbTimestampImport ++ j5Ext,
+    { eff := Eff.imp pbTimestampImport ++ j5Ext ++ validateNoImport (!rules.isEmpty),
       res := some { type := .message, typeName := b!".google.protobuf.Timestamp",
                     ext := b!"timestamp", hasValidate := !rules.isEmpty } }
   | .any => some
-    { eff := Eff.imp j5AnyImport,
+    { eff := Eff.imp j5AnyImport ++ Eff.use j5ExtImport,
       res := some { type := .message, typeName := b!".j5.types.any.v1.Any", ext := b!"any" } }
   | .integer fmt rules lr =>
     if !rules.isEmpty && intRulesErr rules then some { eff := j5Ext } else some
-    { eff := j5Ext ++ when lr (Eff.imp j5ListAnnotationsImport),
+    { eff := j5Ext ++ validateNoImport (!rules.isEmpty) ++ listRulesEff lr,
       res := some { type := intType fmt, ext := b!"integer", hasValidate := !rules.isEmpty } }
   | .float fmt rules lr =>
     if !rules.isEmpty then some {} else some
-    { eff := j5Ext ++ when lr (Eff.imp j5ListAnnotationsImport),
+    { eff := j5Ext ++ listRulesEff lr,
       res := some { type := floatType fmt, ext := b!"float" } }
   | .key fmt ek _ lr => some
-    { eff := Eff.imp j5ExtImport ++ j5Ext ++ when lr (Eff.imp j5ListAnnotationsImport)
-              ++ when (fmt ≠ .none) (Eff.imp bufValidateImport),
+    { eff := Eff.imp j5ExtImport ++ j5Ext ++ listRulesEff lr
+              ++ validateWithImport (fmt ≠ .none),
       res := some { type := .string, ext := b!"key", hasValidate := fmt ≠ .none,
                     primaryKey := ek.isPrimary } }
   | _ => none
@@ -177,15 +202,13 @@ def msgRefField (c : Ctx) (pkg schema : Str) (ext : Str) (rules : Rules) (lr : B
   match refField c pkg schema false with
   | (e, none) => { eff := e }
   | (e, some t) =>
-    { eff := e ++ j5Ext ++ when (!rules.isEmpty) (Eff.imp bufValidateImport)
-                ++ when lr (Eff.imp j5ListAnnotationsImport),
+    { eff := e ++ j5Ext ++ validateWithImport (!rules.isEmpty) ++ listRulesEff lr,
       res := some { type := .message, typeName := t.protoTypeName, ext := ext,
                     hasValidate := !rules.isEmpty } }
 
 /-- message-typed field pointing at an inline type already converted (`ref.Inline`) -/
 def msgInlField (inner : Eff) (typeName ext : Str) (rules : Rules) (lr : Bool) : BF :=
-  { eff := inner ++ j5Ext ++ when (!rules.isEmpty) (Eff.imp bufValidateImport)
-              ++ when lr (Eff.imp j5ListAnnotationsImport),
+  { eff := inner ++ j5Ext ++ validateWithImport (!rules.isEmpty) ++ listRulesEff lr,
     res := some { type := .message, typeName := typeName, ext := ext,
                   hasValidate := !rules.isEmpty },
     walk := inner }
@@ -194,7 +217,7 @@ def msgInlField (inner : Eff) (typeName ext : Str) (rules : Rules) (lr : Bool) :
 def enumFieldWith (pre walk : Eff) (typeName : Str) (pfx : Str) (names : List Str) (rules : Rules)
     (lr : Bool) : BF :=
   if !mapValuesOk pfx names (enumRuleVals rules) then { eff := pre ++ j5Ext, walk := walk } else
-  { eff := pre ++ j5Ext ++ Eff.imp bufValidateImport ++ when lr (Eff.imp j5ListAnnotationsImport),
+  { eff := pre ++ j5Ext ++ validateWithImport true ++ listRulesEff lr,
     res := some { type := .enum, typeName := typeName, ext := b!"enum", hasValidate := true },
     walk := walk }
 
@@ -222,7 +245,7 @@ def finishProperty (name : Str) (required explicitlyOptional : Bool) (number : N
   let req := required || r.primaryKey
   let effReq :=
     if req then
-      (if r.optionsNil then Eff.panicked else {}) ++ Eff.imp bufValidateImport ++ Eff.imp j5ExtImport
+      validateWithImport true ++ Eff.imp j5ExtImport
     else {}
   if explicitlyOptional && req then { eff := pre ++ effReq ++ Eff.err, entries := entries } else
   { eff := pre ++ effReq, entries := entries,
@@ -239,15 +262,15 @@ def mkMsg (name : Str) (isOneof : Bool) (psm : Option Psm) (flds : List FieldSke
 /-- the map-entry message of `buildProperty` -/
 def mkEntry (entryName : Str) (item : FieldRes) : MsgSkel :=
   .mk entryName .mapentry none
-    [ { name := b!"key", jsonName := b!"key", number := 1, type := .string, repeated := false,
+    [ { name := b!"key", jsonName := [], number := 1, type := .string, repeated := false,
         p3opt := false, typeName := [], oneof := none, req := false, ext := [] },
-      { name := b!"value", jsonName := b!"value", number := 2, type := item.type, repeated := false,
+      { name := b!"value", jsonName := [], number := 2, type := item.type, repeated := false,
         p3opt := false, typeName := item.typeName, oneof := none, req := false, ext := item.ext } ]
     [] []
 
 /-- imports that `visitObjectNode` / `visitOneofNode` add for the message itself -/
 def msgEff (psm : Option Psm) : Eff :=
-  when psm.isSome (Eff.imp j5ExtImport) ++ Eff.imp j5ExtImport
+  when psm.isSome (Eff.imp j5ExtImport) ++ Eff.imp j5ExtImport ++ Eff.use j5ExtImport
 
 mutual
 /-- `buildFieldNode` (visits inline types) followed by `buildField`.
@@ -267,20 +290,26 @@ def bField (c : Ctx) (np : List Str) (defName : Str) : Field → BF
     let inner := bProps c (np ++ [nm]) false 1 props
     let msg := mkMsg nm false none inner.flds inner.eff.msgs inner.eff.enums
     let e : Eff := { msgs := [msg], imports := (msgEff none).imports ++ inner.eff.imports,
-                     errs := inner.eff.errs, panic := inner.eff.panic }
+                     errs := inner.eff.errs, panic := inner.eff.panic,
+                     uses := (msgEff none).uses ++ inner.eff.uses }
     msgInlField e (relName np nm) (objExt flatten) rules false
   | .oneofInl name props rules lr =>
     let nm := if name = [] then defName else name
     let inner := bProps c (np ++ [nm]) true 1 props
     let msg := mkMsg nm true none inner.flds inner.eff.msgs inner.eff.enums
     -- map entries of a oneof go to the oneof's own parent context, before the oneof message
-    let e : Eff := { msgs := inner.entries ++ [msg], imports := (msgEff none).imports ++ inner.eff.imports,
-                     errs := inner.eff.errs, panic := inner.eff.panic }
+    let e : Eff := { msgs := inner.entries ++ [msg],
+                     imports := (msgEff none).imports ++ inner.eff.imports,
+                     errs := inner.eff.errs, panic := inner.eff.panic,
+                     uses := (msgEff none).uses ++ inner.eff.uses }
     msgInlField e (relName np nm) b!"oneof" rules lr
   | .enumInl e rules lr =>
     let e' : EnumDecl := if e.name = [] then { e with name := defName } else e
-    enumFieldWith { enums := [convEnum e'] } { enums := [convEnum e'] } (relName np e'.name) e'.pfx
-      (e'.opts.map (e'.pfx ++ ·)) rules lr
+    match enumTKind e' with
+    | .enum pfx names =>
+      enumFieldWith { enums := [convEnum e'] } { enums := [convEnum e'] } (relName np e'.name) pfx
+        names rules lr
+    | .message _ => {}
   | .array items _ =>
     -- `buildFieldNode` still visits inline types below; `buildField` then fails
     let inner := bField c np defName items
@@ -303,15 +332,17 @@ def bProperty (c : Ctx) (np : List Str) (inOneof : Bool) (number : Nat) : Proper
         let entryName := mapName (toSnake name)
         finishProperty name required explicitlyOptional number inOneof item.eff
           [mkEntry entryName r]
-          { type := .message, typeName := entryName, optionsNil := true } true
-    | .array items _ =>
+          { type := .message, typeName := entryName } true
+    | .array items arules =>
       let item := bField c np defName items
       match item.res with
       | none => { eff := item.eff ++ Eff.err }
       | some r =>
-        let eff := item.eff ++ j5Ext ++ when r.hasValidate (Eff.imp bufValidateImport)
+        -- repeated rules wrap the item's (buf.validate.field) when it has one or the array has rules
+        let hv := r.hasValidate || !arules.isEmpty
+        let eff := item.eff ++ j5Ext ++ validateWithImport hv
         finishProperty name required explicitlyOptional number inOneof eff []
-          { r with ext := b!"array" } true
+          { r with ext := b!"array", hasValidate := hv } true
     | f =>
       let b := bField c np defName f
       match b.res with
